@@ -650,6 +650,14 @@ func (p *Prog) DeepContains(t *Term, pred func(*Term) bool, depth int) bool {
 		}
 		if depth > 0 && x.Op == "alloc" {
 			if al, ok := x.V.(*ssa.Alloc); ok {
+				for _, r := range *al.Referrers() {
+					if st, ok := r.(*ssa.Store); ok && st.Addr == ssa.Value(al) {
+						if p.DeepContains(TermOf(st.Val, x.Ctx), pred, depth-1) {
+							found = true
+							return false
+						}
+					}
+				}
 				for _, vs := range litStoresOf(al) {
 					for _, v := range vs {
 						if p.DeepContains(TermOf(v, x.Ctx), pred, depth-1) {
